@@ -7,7 +7,7 @@
 From Coq Require Import List Bool String.
 Import ListNotations.
 
-Inductive ret := RetSelf | RetClone | RetNone | RetOther | RetRaise | RetFallthrough.
+Inductive ret := RetSelf | RetClone | RetNone | RetOther | RetRaise | RetFallthrough | RetContinue | RetBreak.
 
 Inductive sk :=
 | Done (r : ret)
@@ -18,7 +18,9 @@ Inductive sk :=
 | Invalidate (k : sk)               (* self.elements = None *)
 | IfTree (n : nat) (k1 k2 : sk)     (* branch on data read from the tree *)
 | IfCache (n : nat) (k1 k2 : sk)    (* branch on data read from cached shapes *)
-| IfHasCache (k1 k2 : sk).          (* `if self.elements:` *)
+| IfHasCache (k1 k2 : sk)           (* `if self.elements:` *)
+| While (n : nat) (body k : sk).    (* a loop whose body changes the bookkeeping; the leaves of `body`
+                                       are RetContinue (next iteration), RetBreak (go on with k) or RetRaise *)
 
 Inductive mkind := Mutator | Query.
 Record method := mk_method {
@@ -37,6 +39,9 @@ Section Sem.
   Variable mut : nat -> tree -> tree.
   Variable cond_tree : nat -> tree -> bool.
   Variable cond_cache : nat -> cache -> bool.
+  (* how many iterations a loop (statement n) started on a given tree takes at most; every terminating
+     execution has such a number, the theorems hold for every choice *)
+  Variable bound : nat -> tree -> nat.
 
   Definition state : Type := tree * option cache.
 
@@ -54,6 +59,17 @@ Section Sem.
                          | None => run k2 s
                          end
     | IfHasCache k1 k2 => match snd s with Some _ => run k1 s | None => run k2 s end
+    | While n body k' =>
+        (fix loop (i : nat) (s : state) : state * ret :=
+           match i with
+           | O => run k' s
+           | S i' => let sr := run body s in
+                     match snd sr with
+                     | RetContinue => loop i' (fst sr)
+                     | RetBreak => run k' (fst sr)
+                     | _ => sr
+                     end
+           end) (bound n (fst s)) s
     end.
 
   (* what serialising the object yields *)
@@ -81,6 +97,15 @@ Fixpoint pure_sk (k : sk) : bool :=
   | _ => false
   end.
 
+(* loop bodies end every path by continue, break or raise (a `return` inside a loop is rejected by the extractor) *)
+Fixpoint loop_leaves (k : sk) : bool :=
+  match k with
+  | Done r => match r with RetContinue | RetBreak | RetRaise => true | _ => false end
+  | Flush k' | Populate k' | Edit _ k' | Mut _ k' | Invalidate k' => loop_leaves k'
+  | IfTree _ a b | IfCache _ a b | IfHasCache a b => loop_leaves a && loop_leaves b
+  | While _ body k' => loop_leaves body && loop_leaves k'
+  end.
+
 Fixpoint wf (r : rel) (k : sk) : bool :=
   match k with
   | Done _ => true
@@ -92,6 +117,7 @@ Fixpoint wf (r : rel) (k : sk) : bool :=
   | IfTree _ a b => match r with Same => wf Same a && wf Same b | _ => pure_sk a && pure_sk b end
   | IfCache _ a b => match r with Init => false | x => wf x a && wf x b end
   | IfHasCache a b => match r with Init => false | x => wf x a && wf x b end
+  | While _ body k' => match r with Same => wf Same body && wf Same k' | _ => false end
   end.
 
 (* every leaf of an in-place body returns the receiver (or raises) *)
@@ -100,6 +126,7 @@ Fixpoint returns_self (k : sk) : bool :=
   | Done r => match r with RetSelf | RetRaise => true | _ => false end
   | Flush k' | Populate k' | Edit _ k' | Mut _ k' | Invalidate k' => returns_self k'
   | IfTree _ a b | IfCache _ a b | IfHasCache a b => returns_self a && returns_self b
+  | While _ body k' => loop_leaves body && returns_self k'
   end.
 
 (* ------------------------------------------------------------------ cache freshness *)
@@ -114,13 +141,14 @@ Section Ghost.
   Variable mut : nat -> tree -> tree.
   Variable cond_tree : nat -> tree -> bool.
   Variable cond_cache : nat -> cache -> bool.
+  Variable bound : nat -> tree -> nat.
 
   Definition has_cache (s : state tree cache) : bool := match snd s with Some _ => true | None => false end.
 
-  (* returns (final state, stale at exit, a stale cache was used) *)
-  Fixpoint run_g (k : sk) (s : state tree cache) (stale used : bool) : state tree cache * bool * bool :=
+  (* returns (final state, stale at exit, a stale cache was used, how the run ended) *)
+  Fixpoint run_g (k : sk) (s : state tree cache) (stale used : bool) : state tree cache * bool * bool * ret :=
     match k with
-    | Done _ => (s, has_cache s && stale, used)
+    | Done r => (s, has_cache s && stale, used, r)
     | Flush k' => run_g k' (match s with (t, Some c) => (flush t c, None) | _ => s end) false (used || (has_cache s && stale))
     | Populate k' => run_g k' (match s with (t, None) => (t, Some (populate t)) | _ => s end)
                            (has_cache s && stale) (used || (has_cache s && stale))
@@ -133,6 +161,16 @@ Section Ghost.
                          | None => run_g k2 s stale used
                          end
     | IfHasCache k1 k2 => match snd s with Some _ => run_g k1 s stale used | None => run_g k2 s stale used end
+    | While n body k' =>
+        (fix loop (i : nat) (s : state tree cache) (stale used : bool) : state tree cache * bool * bool * ret :=
+           match i with
+           | O => run_g k' s stale used
+           | S i' => match run_g body s stale used with
+                     | (s', stale', used', RetContinue) => loop i' s' stale' used'
+                     | (s', stale', used', RetBreak) => run_g k' s' stale' used'
+                     | res => res
+                     end
+           end) (bound n (fst s)) s stale used
     end.
 End Ghost.
 
@@ -150,6 +188,10 @@ Fixpoint wf_fresh (present stale : bool) (k : sk) : bool :=
   | IfCache _ a b => if present then negb stale && wf_fresh present stale a && wf_fresh present stale b
                      else wf_fresh present stale b
   | IfHasCache a b => if present then wf_fresh true stale a else wf_fresh false stale b
+  | While _ body k' =>
+      (* first iteration / immediate exit from the entry situation; later ones from any non-stale situation *)
+      wf_fresh present stale body && wf_fresh present stale k' &&
+      wf_fresh false false body && wf_fresh true false body && wf_fresh false false k' && wf_fresh true false k'
   end.
 
 Definition method_ok (m : method) : bool :=
